@@ -503,9 +503,9 @@ def gen_cases(rng, tier):
     #     must be received intact, in big chunks, and the small message behind it must not bleed; a declared length
     #     beyond what the peer sends (MAX_SIZE + 1, 2^32 - 1, ...) must end in an error, never in a result
     MiB = 1 << 20
-    bigs = [(MAX_SIZE, 8 * MiB), (MAX_SIZE - 1, 0), (70000, 4096), (MAX_SIZE // 2, 16 * MiB)]
+    bigs = [(MAX_SIZE, 8 * MiB), (MAX_SIZE, 0), (MAX_SIZE - 1, 0), (70000, 4096), (MAX_SIZE // 2, 16 * MiB)]
     if T:
-        bigs += [(MAX_SIZE, 0), (MAX_SIZE, MiB), (MAX_SIZE - 1, 3 * MiB + 1), (MAX_SIZE - 2, 8 * MiB), (MAX_SIZE // 2 + 1, 0)]
+        bigs += [(MAX_SIZE, 16 * MiB + 1), (MAX_SIZE, MiB), (MAX_SIZE - 1, 3 * MiB + 1), (MAX_SIZE - 2, 8 * MiB), (MAX_SIZE // 2 + 1, 0)]
     for n, chunk in bigs:
         out.append(case("recv-max-size", "recv_msg_big", n, n, chunk, expect=list(expected_recv_msg_big(n, n)), timeout=120))
     for n, declared in [(100, MAX_SIZE + 1), (100, 0xFFFFFFFF), (0, MAX_SIZE), (5000, MAX_SIZE - 1), (100, MAX_SIZE * 2)]:
@@ -682,6 +682,26 @@ def gen_cases(rng, tier):
             b = bytearray(base)
             b[bit // 8] ^= 1 << (bit % 8)
             recv("flip-" + name + "-then-eof", bytes(b), rand_sched(rng, 32, rng.randrange(1, 6)), strict=True)
+    # corruption of messages with an EMPTY payload (nothing to checksum but the checksum of b"" must still match), and
+    # corruption that turns the declared length into 0 (the payload bytes then belong to the next message)
+    for cmd in (b"verack", b"getaddr"):
+        empty = spec_ser(MAIN, cmd, b"")
+        for bit in range(0, 24 * 8):
+            if not T and not (20 * 8 <= bit < 24 * 8) and bit % 4:
+                continue
+            b = bytearray(empty)
+            b[bit // 8] ^= 1 << (bit % 8)
+            st = bytes(b) + follow
+            recv("flip-empty-payload-message", st, rand_sched(rng, len(st), rng.randrange(1, 8)), strict=True)
+            if 20 * 8 <= bit < 24 * 8:
+                recv("flip-empty-payload-message", bytes(b), [], strict=True)
+    for L in (1, 2, 4, 8, 16, 256, 4096):            # a single bit flip makes the length 0
+        p = rng.randbytes(L)
+        z = bytearray(spec_ser(MAIN, b"ping" if L == 8 else b"tx", p))
+        z[16:20] = b"\0\0\0\0"
+        out.append(case("flip-length-to-zero", "recv_msgs", 2, len(z) + len(follow) + 3, MAIN, bytes(z) + follow, [],
+                        strict=True))
+        recv("flip-length-to-zero", bytes(z) + follow, rand_sched(rng, len(z), 3), strict=True)
     # wrong network magic, all pairs
     for a in MAGIC:
         for b_ in MAGIC:
@@ -818,7 +838,7 @@ def gen_cases(rng, tier):
         out.append(case("inventory-each-type", "inventory", t.title(), rng.randbytes(32), strict=True))
     for t in ("MSG_WTX", "", "msg", "MSG_FILTERED_WITNESS_BLOCK", "1"):
         out.append(case("inv-unknown-type", "inv_rt", 1, [(t, bytes(32))], strict=True))
-    for n in [0, 1, 2, 50, 252, 253, 254, 500] + ([65535, 65536] if T else []):
+    for n in [0, 1, 2, 50, 252, 253, 254, 255, 256, 257, 500, 509, 510, 511] + ([65535, 65536, 65537] if T else []):
         items = [(rng.choice(names), rng.randbytes(32)) for _ in range(n)]
         out.append(case("inv-count-%s" % ("le252" if n <= 252 else "253plus"), "inv_rt", n, items, timeout=120))
     for c, n in ((0, 1), (1, 0), (2, 1), (1, 2), (253, 1), (-1, 1), (U64, 0), (U64 - 1, 1)):
@@ -840,7 +860,7 @@ def gen_cases(rng, tier):
     # addr
     def entry():
         return (rng.randrange(U32), rng.randbytes(8), rng.choice([BIN_IP, rng.randbytes(16)]), rng.randrange(U16))
-    for n in [0, 1, 2, 252, 253, 254, 1000] + ([65536] if T else []):
+    for n in [0, 1, 2, 252, 253, 254, 255, 256, 257, 1000] + ([65535, 65536] if T else []):
         out.append(case("addr-count-%s" % ("le252" if n <= 252 else "253plus"), "addr_rt", n, [entry() for _ in range(n)],
                         timeout=120))
     for t, port in ((0, 0), (U32 - 1, U16 - 1), (U32, 1), (-1, 1), (1, U16), (1, -1)):
@@ -864,6 +884,10 @@ def gen_cases(rng, tier):
                                 b"network_ip_addr", b"compact_size_uint", b"PING", b"ping\0"]:
         out.append(case("parse-payload-dispatch", "parse_payload", cmd, samples.get(cmd, b"\x01\x02"), strict=True))
         out.append(case("parse-payload-dispatch-empty", "parse_payload", cmd, b"", strict=True))
+    for n in (252, 253, 254, 255, 256):
+        body = b"".join(struct.pack("<I", INV_TYPES[rng.choice(names)]) + rng.randbytes(32) for _ in range(n))
+        out.append(case("parse-payload-inv-count", "parse_payload", b"inv", spec_cs(n) + body, strict=True))
+        out.append(case("parse-payload-addr-count", "parse_payload", b"addr", spec_cs(n) + rng.randbytes(30 * n), strict=True))
     out.append(case("parse-payload-nonascii-command", "parse_payload", b"pi\xffg", bytes(8), strict=True))
     return out
 
@@ -1062,6 +1086,14 @@ def prop_oracle(c):
             return "payload of %d bytes: accepted=%s, MAX_SIZE=%d" % (n, r is not None, MAX_SIZE)
         return None
     U32, U64, U16 = 2 ** 32, 2 ** 64, 2 ** 16
+    if op == "parse_payload" and a[0] == b"inv":
+        want = _spec_parse_inv(a[1])
+        if want is None:
+            return None
+        got = impl_parse_payload(a[0], a[1])
+        if got is None or (got[1][0], [tuple(x) for x in got[1][1]]) != want:
+            return "parse_payload(b'inv', ...) does not return the %d entries of a well-formed inv payload" % want[0]
+        return None
     if op == "parse_inv_payload":
         raw = a[0]
         want = _spec_parse_inv(raw)
